@@ -540,6 +540,64 @@ pub fn char_stream(toks: &[char]) -> CharStream {
 }
 
 // ---------------------------------------------------------------------------------------------
+// inputs whose tokens carry their own (gapped) spans
+
+pub type SpTok = (char, SimpleSpan);
+pub type SpSlice<'s> = chumsky::input::MappedInput<char, SimpleSpan, &'s [SpTok], fn(&'s SpTok) -> (&'s char, &'s SimpleSpan)>;
+pub type SpStream = chumsky::input::MappedInput<char, SimpleSpan, chumsky::input::Stream<std::vec::IntoIter<SpTok>>, fn(SpTok) -> (char, SimpleSpan)>;
+pub type SpIter = chumsky::input::IterInput<std::vec::IntoIter<SpTok>, SimpleSpan>;
+
+fn sp_ref<'s>(t: &'s SpTok) -> (&'s char, &'s SimpleSpan) {
+    (&t.0, &t.1)
+}
+fn sp_val(t: SpTok) -> (char, SimpleSpan) {
+    t
+}
+pub fn sp_slice<'s>(toks: &'s [SpTok], eoi: (usize, usize)) -> SpSlice<'s> {
+    toks.map(SimpleSpan::from(eoi.0..eoi.1), sp_ref as fn(&'s SpTok) -> (&'s char, &'s SimpleSpan))
+}
+pub fn sp_stream(toks: &[SpTok], eoi: (usize, usize)) -> SpStream {
+    chumsky::input::Stream::from_iter(toks.to_vec().into_iter()).map(SimpleSpan::from(eoi.0..eoi.1), sp_val as fn(SpTok) -> (char, SimpleSpan))
+}
+pub fn sp_iter(toks: &[SpTok], eoi: (usize, usize)) -> SpIter {
+    chumsky::input::IterInput::new(toks.to_vec().into_iter(), SimpleSpan::from(eoi.0..eoi.1))
+}
+
+macro_rules! no_slices {
+    () => {
+        const HAS_SLICE: bool = false;
+        fn slice_node<R: Er<'s, Self>>(_p: BP<'s, Self, R>) -> BP<'s, Self, R> {
+            unreachable!("this input kind has no slices")
+        }
+        fn map_slice_node<R: Er<'s, Self>>(_p: BP<'s, Self, R>) -> BP<'s, Self, R> {
+            unreachable!("this input kind has no slices")
+        }
+        fn slice_node_explicit<R: Er<'s, Self>>(_p: BP<'s, Self, R>) -> BP<'s, Self, R> {
+            unreachable!("this input kind has no slices")
+        }
+    };
+}
+
+impl<'s> Kind<'s> for SpSlice<'s> {
+    type Tok = char;
+    type Spn = SimpleSpan;
+    no_slices!();
+    value_kind_prims!();
+}
+impl<'s> Kind<'s> for SpStream {
+    type Tok = char;
+    type Spn = SimpleSpan;
+    no_slices!();
+    value_kind_prims!();
+}
+impl<'s> Kind<'s> for SpIter {
+    type Tok = char;
+    type Spn = SimpleSpan;
+    no_slices!();
+    no_value_prims!();
+}
+
+// ---------------------------------------------------------------------------------------------
 // extension parser with separately written parse / check paths
 
 pub struct ExtP {
@@ -958,10 +1016,17 @@ impl<'s, I: Kind<'s>, R: Er<'s, I>> Bld<'s, I, R> {
             }
             TryMap(a, p, t) => {
                 let (p, t) = (p.clone(), *t);
+                let cap = self.cap_spans;
                 self.build(a)
-                    .try_map(move |v, span| {
+                    .try_map(move |v, span: I::Spn| {
                         if p.test(&v) {
-                            Ok(Val::mark(t, v))
+                            let m = Val::mark(t, v);
+                            Ok(if cap {
+                                let (s, e) = span.se();
+                                Val::pair(Val::Span(s, e), m)
+                            } else {
+                                m
+                            })
                         } else {
                             Err(R::custom(span, format!("T{}", t)))
                         }
@@ -970,10 +1035,17 @@ impl<'s, I: Kind<'s>, R: Er<'s, I>> Bld<'s, I, R> {
             }
             TryMapWith(a, p, t) => {
                 let (p, t) = (p.clone(), *t);
+                let cap = self.cap_spans;
                 self.build(a)
                     .try_map_with(move |v, e| {
                         if p.test(&v) {
-                            Ok(Val::mark(t, v))
+                            let m = Val::mark(t, v);
+                            Ok(if cap {
+                                let (s, e2) = e.span().se();
+                                Val::pair(Val::Span(s, e2), m)
+                            } else {
+                                m
+                            })
                         } else {
                             Err(R::custom(e.span(), format!("T{}", t)))
                         }
@@ -1018,13 +1090,19 @@ impl<'s, I: Kind<'s>, R: Er<'s, I>> Bld<'s, I, R> {
             G::Rep(r) => self.rep(r),
             Validate(a, t, n) => {
                 let (t, n) = (*t, *n);
+                let cap = self.cap_spans;
                 self.build(a)
                     .validate(move |v, e, em| {
                         let sp = e.span();
                         for k in 0..n {
                             em.emit(R::custom(sp.clone(), format!("V{}.{}", t, k)));
                         }
-                        v
+                        if cap {
+                            let (s, e2) = sp.se();
+                            Val::pair(Val::Span(s, e2), v)
+                        } else {
+                            v
+                        }
                     })
                     .boxed()
             }
